@@ -250,6 +250,17 @@ type TryLocker interface {
 func Lock(m TryLocker) {
 	if curSched.Load() == nil {
 		jitter()
+		if tickBudget.Load() > 0 {
+			// a host call is being monitored under a loop-tick budget: waiting
+			// for a lock counts as looping, so that a self-deadlock (a lock
+			// left held on an error path) ends in a deterministic
+			// budget-exceeded verdict instead of a wall-clock watchdog
+			for !m.TryLock() {
+				Tick()
+				runtime.Gosched()
+			}
+			return
+		}
 		m.Lock()
 		return
 	}
